@@ -18,13 +18,13 @@ def has_float(e) -> bool:
     return any(a.is_Float for a in sympy.preorder_traversal(e))
 
 
-def close(a: Fraction, b: Fraction, floaty: bool) -> bool:
+def close(a: Fraction, b: Fraction, floaty: bool, tol: Fraction = Fraction(1, 10**12)) -> bool:
     if a == b:
         return True
     if not floaty and max(abs(a), abs(b)) < 10**14:
         return False   # (numbers beyond 15 digits are rounded by bartiq's numeric folding even when integral)
     scale = max(abs(a), abs(b), Fraction(1, 10**300))
-    return abs(a - b) <= scale * Fraction(1, 10**12)
+    return abs(a - b) <= scale * tol
 
 
 def points(names, rng: random.Random, k=4, lo=2, hi=12, integer=True):
@@ -71,7 +71,7 @@ def sem_equal(real, tree, rng: random.Random, extra_names=(), k=4, funcs=None):
     return ("equal", decided) if decided else ("undecided", "no common point of definition found")
 
 
-def sem_equal_real(a, b, rng: random.Random, rename=None, k=3, funcs=None):
+def sem_equal_real(a, b, rng: random.Random, rename=None, k=3, funcs=None, tol: Fraction = Fraction(1, 10**12)):
     """both sides come from the implementation (sympy / numbers).  `rename` maps symbol names of `a` to names of `b`.
     -> (verdict, detail)"""
     rename = rename or {}
@@ -86,7 +86,7 @@ def sem_equal_real(a, b, rng: random.Random, rename=None, k=3, funcs=None):
             vb = E.sympy_ev(b, dict(env_b), salt, funcs)
         except (E.Undefined, OverflowError, KeyError):
             continue
-        if not close(va, vb, has_float(a) or has_float(b)):
+        if not close(va, vb, has_float(a) or has_float(b), tol):
             return "different", {"point": {k_: str(v) for k_, v in env_b.items()}, "left": str(va), "right": str(vb)}
         decided += 1
         if decided >= k:
